@@ -100,6 +100,8 @@ Record Inv2 (orig : list (list op)) (s : sys) : Prop := {
   j_ref : forall x, x < length (g_states (sh s)) ->
             s_ref (getst (sh s) x) =
             sum (fun th => href th x) (ths s) + sum (fun st0 => fsucc (s_fin st0) x) (g_states (sh s));
+  j_oob : forall x, length (g_states (sh s)) <= x ->
+            sum (fun th => href th x) (ths s) = 0 /\ sum (fun st0 => fsucc (s_fin st0) x) (g_states (sh s)) = 0;
   j_own : forall h, (h < length (g_hnds (sh s)) -> owners (sh s) (ths s) h + h_closes (geth (sh s) h) = 1) /\
                     (length (g_hnds (sh s)) <= h -> owners (sh s) (ths s) h = 0);
   j_fin : forall x hs sc, x < length (g_states (sh s)) -> s_fin (getst (sh s) x) = FSet hs sc ->
